@@ -14,7 +14,10 @@ EXPLANATION = ("Structural, path-complete conditions over the 7 spawned executor
                "consumer_stream_internal's range, spawns one executor per created stream, and its per-executor close callback bumps finished_executors_count and then awaits "
                "the latched callback; latch_callback_1p invokes the user callback only on the path where its single fetch_sub(1) returned 1; (R12.4) sequential transition: "
                "on the `sequential_transition == true` arm of the four spawn_*_oldies_executor the only executor spawned directly is the oldies one, and the newies one is "
-               "spawned inside the oldies' close callback, before the user's oldies callback runs.")
+               "spawned inside the oldies' close callback, before the user's oldies callback runs; (R12.5) no suspension point is reachable while a lock guard is held in any "
+               "coroutine of the crate (Multi::flush_and_cancel_executor releases executor_infos before it awaits the cancel: add_executor, called from the oldies' close callback, "
+               "needs that lock; the latch's own callback mutex is the one listed exception); (R12.6) the executor task cannot die before its close callback: no panicking block is "
+               "reachable in any item processor under either value of the instruments guard and the guard is implied by metrics() (shared with C11 R11.3 / R11.6).")
 ASSUMPTIONS = ["wall-clock ordering of callbacks relative to item side effects beyond dominance is not decided",
                "tokio::spawn runs the coroutine to completion; FnOnce close callbacks are at-most-once by type"]
 
@@ -240,6 +243,51 @@ def check(ctx):
                        "the oldies' close callback spawns the newies executor and only then runs the user's oldies callback")
             ctx.ob("R12.4", f"{k}|oldies-close-callback-found", found, site, "the sequential arm's close callback was identified", nontrivial=False)
     ctx.floor("R12.1", 50); ctx.floor("R12.2", 8); ctx.floor("R12.3", 18); ctx.floor("R12.4", 16)
+
+    # ------------------------------------------------------------------ R12.5 no suspension while an executor-registry / callback lock guard is held
+    # Multi::add_executor takes executor_infos.write(): with a sequential transition it is called from inside the oldies' close callback, and the cancel of
+    # one executor (flush_and_cancel_executor) waits for a flush that only ends once that callback has run -- a guard kept across an .await there means the
+    # oldies' close callback never runs and the newies never start.
+    GUARDS = ("tokio::sync::RwLockWriteGuard", "tokio::sync::RwLockReadGuard", "tokio::sync::MutexGuard", "tokio::sync::OwnedRwLockWriteGuard", "tokio::sync::OwnedMutexGuard",
+              "std::sync::MutexGuard", "std::sync::RwLockWriteGuard", "std::sync::RwLockReadGuard", "lock_api::MutexGuard", "lock_api::RwLockWriteGuard", "lock_api::RwLockReadGuard")
+    HELD_OK = {"uni::uni::latch_callback_1p": "the latch's mutex guards only the take-once callback slot and is locked only by the one caller that saw the count reach zero"}
+    n5 = 0
+    for f in fx.fns:
+        if not f.get("is_coroutine"): continue
+        gl = [i for i, l in enumerate(f["locals"]) if l["ty"].startswith(GUARDS)]
+        if not gl: continue
+        body = Body(f)
+        ys = [b for b in body.reachable if body.term(b)[0] == "Yield"]
+        owner = f.get("owner_fn") or f["key"]
+        for g in gl:
+            if not body.lname(g) or body.lname(g).startswith("_"): pass
+            mi = body.maybe_init_at_term(g)
+            held = [b for b in ys if b in mi]
+            n5 += 1
+            name = body.lname(g) or f"_{g}"
+            reason = next((r for k_, r in HELD_OK.items() if owner.startswith(k_)), None)
+            if held and reason:
+                ctx.ob("R12.5", f"{f['key']}|guard-across-await|{name}|listed", True, body.loc(held[0]), f"lock guard `{name}` is held across an .await: listed exception -- {reason}", nontrivial=False)
+            else:
+                ctx.ob("R12.5", f"{f['key']}|no-await-while-holding|{name}", not held, body.loc(held[0]) if held else f"{f['file']}:{f['line']}",
+                       f"lock guard `{name}: {f['locals'][g]['ty'][:60]}` is " + ("released before every suspension point" if not held else
+                       "still held at an .await: every other task that needs the lock (add_executor from a close callback, another cancel) waits for this future to be resumed -- which may in turn wait for them"))
+    ctx.floor("R12.5", 3)
+
+    # ------------------------------------------------------------------ R12.6 the executor task cannot die before its close callback
+    # the callback runs after the stream loop inside the same spawned task: a panic in an item processor kills the task mid-stream, the status stays Running
+    # and the callback never runs (the Uni's latch never fires, a sequential Multi never starts its newies).  Shared with C11: no diverging block is reachable
+    # in any item processor under either value of the instruments guard (R11.3), and the guard is implied by metrics() for every instruments value (R11.6).
+    import importlib
+    C11 = importlib.import_module("props.C11")
+    class OnlyPanics(util.PrefixedCtx):
+        def ob(self, rule, key, ok, site="", detail="", nontrivial=True, undecided=False):
+            if rule in ("R11.3", "R11.6"): return super().ob(rule, key, ok, site, detail, nontrivial, undecided)
+            return ok
+        def undecided(self, rule, key, site="", detail=""):
+            if rule in ("R11.3", "R11.6"): return super().undecided(rule, key, site, detail)
+    C11.check(OnlyPanics(ctx, "R12.6"))
+    ctx.floor("R12.6", 10)
 
 
 def _variant(e):
